@@ -75,6 +75,8 @@ pub struct WebSocketFramed<T, C, E, D> {
     readable: bool,
     /// a decode error has been reported; the stream ends
     errored: bool,
+    /// our Close frame has been queued
+    close_sent: bool,
 }
 
 impl<T, C, E, D> Unpin for WebSocketFramed<T, C, E, D> {}
@@ -85,7 +87,7 @@ where
     C: Encoder<E, Error = anyhow::Error> + Decoder<Item = D, Error = anyhow::Error> + Unpin,
 {
     pub fn new(stream: WebSocketStream<T>, codec: C) -> Self {
-        Self { stream, codec, encode_item: PhantomData, decode_item: PhantomData, buffer: None, readable: false, errored: false }
+        Self { stream, codec, encode_item: PhantomData, decode_item: PhantomData, buffer: None, readable: false, errored: false, close_sent: false }
     }
 }
 
@@ -168,7 +170,15 @@ where
     }
 
     fn poll_close(mut self: Pin<&mut Self>, cx: &mut Context<'_>) -> Poll<Result<(), Self::Error>> {
-        self.stream.poll_close_unpin(cx).map_err(|e| anyhow!(e))
+        // Send our Close frame and leave the reading to the stream half. The inner poll_close() reads and throws away
+        // every message until the peer's Close arrives; in a relay the other direction is still reading from this very
+        // stream, and the messages thrown away here were missing from the middle of what it delivered.
+        if !self.close_sent {
+            self.close_sent = true;
+            // AlreadyClosed: the peer's Close came first and has been answered, there is nothing left to send
+            let _ = self.stream.start_send_unpin(tokio_websockets::Message::close(None, ""));
+        }
+        self.stream.poll_flush_unpin(cx).map_err(|e| anyhow!(e))
     }
 }
 
